@@ -282,13 +282,28 @@ def step (elem : Bool) (st : St) (w : List String) : St × String :=
       | "insert", [pos, dat] =>
         match opnd m h pos, dataArg m h dat with
         | some pos, some (bytes, _) =>
-          finish elem st (insertOp m h pos bytes) noDetail offRet [okAlt st h (Vec.insert v pos bytes), refAlt st]
+          finish elem st (if elem then insertOpE m h pos bytes else insertOp m h pos bytes) noDetail offRet [okAlt st h (Vec.insert v pos bytes), refAlt st]
         | _, _ => bad
       | "set", [tr, off, dat] =>
         let offv : Option Int :=
           if off.startsWith "-" ∧ off.length > 1 then (nat? (off.drop 1).toString).map fun a => - Int.ofNat a
           else (opnd m h off).map Int.ofNat
-        match traitsByName elem tr, offv, dataArg m h dat with
+        match traitsByName elem tr, offv, (if elem ∧ dat.startsWith "el:" then none else dataArg m h dat) with
+        | some (some t), some off, none =>
+          -- `el:<k>`: k source elements constructed and destroyed again by the caller
+          match (if elem ∧ dat.startsWith "el:" then nat? (dat.drop 3).toString else none) with
+          | some k =>
+            if k > 64 ∨ ¬ t.init ∨ t.fini.isNone ∨ off.natAbs > 1000000 then bad
+            else
+              let first := m.next
+              let m1 := sourcesInit m k
+              let r := arraySet m1 h (some t) (sourcesBytes first k t.size) true off
+              let r' : Out Nat := match r with
+                | .ok s v => .ok (sourcesFini s first k) v
+                | .fail s e => .fail (sourcesFini s first k) e
+                | .fault w => .fault w
+              finish elem st r' noDetail offRet [refAlt st]
+          | none => bad
         | some t, some off, some (bytes, isnull) =>
           if off.natAbs > 1000000 then bad
           else
@@ -349,7 +364,21 @@ def step (elem : Bool) (st : St) (w : List String) : St × String :=
           finish elem st (cutOp m h off len) noDetail (fun r _ => toString r) alts
         | _, _ => bad
       | "bset", [pos, dat] =>
-        match opnd m h pos, dataArg m h dat with
+        match opnd m h pos, (if elem ∧ dat.startsWith "el:" then none else dataArg m h dat) with
+        | some pos, none =>
+          match (if elem ∧ dat.startsWith "el:" then nat? (dat.drop 3).toString else none), (bufOf m h).bind (·.traits) with
+          | some k, some t =>
+            if k > 64 ∨ ¬ t.init ∨ t.fini.isNone then bad
+            else
+              let first := m.next
+              let m1 := sourcesInit m k
+              let r := bsetOp m1 h pos (sourcesBytes first k t.size) true
+              let r' : Out Int := match r with
+                | .ok s v => .ok (sourcesFini s first k) v
+                | .fail s e => .fail (sourcesFini s first k) e
+                | .fault w => .fault w
+              finish elem st r' noDetail (fun r _ => toString r) [refAlt st]
+          | _, _ => bad
         | some pos, some (bytes, isnull) =>
           finish elem st (bsetOp m h pos bytes (!isnull)) noDetail (fun r _ => toString r) [okAlt st h (Vec.write v pos bytes), refAlt st]
         | _, _ => bad
